@@ -16,7 +16,7 @@ TEXT_POOL = ['', 'a', 'abc', 'ABC', 'a b', ' lead', 'trail ', 'tab\there', 'new\
              'CamelCase', 'snake_case', 'kebab-case', 'x' * 40, ' ', ' ', 'NULL', 'None', 'nan', 'true']
 
 FIELD_NAMES = ['a', 'B', 'col 1', 'naïve', 'x.y', 'f-1', '1', 'select', "it's", 'dq"', 'uni☃', 'n_failures',
-               'Index', 'a_min_ok', 'id', 'cafe\u0301', 'e\u0301te\u0301']
+               'Index', 'a_min_ok', 'id', 'cafe\u0301', 'e\u0301te\u0301', '\ufeffid']
 
 
 def rich_series(rnd, n, kind=None):
